@@ -40,26 +40,34 @@ func vWidth(name string, a uint64) int {
 	return w
 }
 
+// width -1 = shortest form
+func vW(width int, arg uint64) int {
+	if width < 0 {
+		return vMinWidth(arg)
+	}
+	return width
+}
+
 func nnInt(major int, arg uint64, width int) *vNodeT {
-	return &vNodeT{major: major, arg: arg, width: width}
+	return &vNodeT{major: major, arg: arg, width: vW(width, arg)}
 }
 func nnBstr(content []byte, width int) *vNodeT {
-	return &vNodeT{major: 2, arg: uint64(len(content)), width: width, content: content}
+	return &vNodeT{major: 2, arg: uint64(len(content)), width: vW(width, uint64(len(content))), content: content}
 }
 func nnTstr(content string, width int) *vNodeT {
-	return &vNodeT{major: 3, arg: uint64(len(content)), width: width, content: []byte(content)}
+	return &vNodeT{major: 3, arg: uint64(len(content)), width: vW(width, uint64(len(content))), content: []byte(content)}
 }
 func nnArray(kids []*vNodeT, width int) *vNodeT {
-	return &vNodeT{major: 4, arg: uint64(len(kids)), width: width, kids: kids}
+	return &vNodeT{major: 4, arg: uint64(len(kids)), width: vW(width, uint64(len(kids))), kids: kids}
 }
 func nnMap(pairs []*vNodeT, width int) *vNodeT {
-	return &vNodeT{major: 5, arg: uint64(len(pairs) / 2), width: width, kids: pairs}
+	return &vNodeT{major: 5, arg: uint64(len(pairs) / 2), width: vW(width, uint64(len(pairs)/2)), kids: pairs}
 }
 func nnTag(num uint64, kid *vNodeT, width int) *vNodeT {
-	return &vNodeT{major: 6, arg: num, width: width, kids: []*vNodeT{kid}}
+	return &vNodeT{major: 6, arg: num, width: vW(width, num), kids: []*vNodeT{kid}}
 }
 func nnSimple(val uint64, width int) *vNodeT {
-	return &vNodeT{major: 7, arg: val, width: width}
+	return &vNodeT{major: 7, arg: val, width: vW(width, val)}
 }
 
 // nnIndef: the same container / string in indefinite-length form (strings: one chunk).
